@@ -562,6 +562,8 @@ def run(ctx, only_cases=None):
                 ctx.violation("unexpected-async-tier-call", "real hybrid.Storage: %s(%r) on tier %d was called from a goroutine that belongs to no caller: %s"
                               % (a["m"], a["key"], a["tier"], a["frame"]),
                               {"case": c, "observed": {k2: o[k2] for k2 in ("logs", "sched", "final", "viol", "async", "results") if k2 in o}})
+        if o.get("lock_note"):
+            stats["harness_lock_notes"] = stats.get("harness_lock_notes", 0) + 1
         if o.get("wb_missing") or o.get("overflow"):
             ctx.violation("writeback-not-observed", "a successful persistent read inside hybrid.Get was not followed by the asynchronous cache "
                           "write-back the model expects (or more write-backs than readers appeared)", {"case": c, "observed": o})
